@@ -156,3 +156,17 @@ Fixpoint rootdist_mismatches (i : nat) (l : list rootdist_obs) : list (nat * nat
   | c :: r => let v := rootdist_check c in
               if Nat.eqb v 0 then rootdist_mismatches (S i) r else (i, v) :: rootdist_mismatches (S i) r
   end.
+
+(* the assimilation kernel of radia() on one traced day (CropNModel.assim_of): the locals the harness' verbatim shadow of radia()
+   recorded (the shadow is compared with the real kernel, hook VerifRadia, on every case) and the results GPHOT, MAINT of the REAL
+   kernel.  1 = GPHOT, 2 = MAINT *)
+Record assim_obs := { aso_in : as_in (T:=float); aso_o_gphot : float; aso_o_maint : float }.
+Definition assim_check (o : assim_obs) : nat :=
+  let '(gp, mt) := assim_of (aso_in o) in
+  ((if float_same gp (aso_o_gphot o) then 0 else 1) + (if float_same mt (aso_o_maint o) then 0 else 2))%nat.
+Fixpoint assim_mismatches (i : nat) (l : list assim_obs) : list (nat * nat) :=
+  match l with
+  | [] => []
+  | c :: r => let v := assim_check c in
+              if Nat.eqb v 0 then assim_mismatches (S i) r else (i, v) :: assim_mismatches (S i) r
+  end.
